@@ -135,6 +135,21 @@ def capture_files(files, name, sm=False, gen=False, fresh=False):
     return caps
 
 
+def capture_subpatterns(files, name):
+    """Independent DFA of every subpattern (tools/capture subpats). Returns list of Cap (DFA only)."""
+    tool = capture_tool()
+    out = cache_dir('caps', repo_hash(), name + '-subpats')
+    key = file_hash(files) + repo_hash()
+    if not stamp_ok(out, key):
+        for f in glob.glob(os.path.join(out, '*')):
+            os.remove(f)
+        lst = os.path.join(out, 'files.lst')
+        open(lst, 'w').write('\n'.join(files) + '\n')
+        sh([tool, 'subpats', out, '--list', lst])
+        stamp_write(out, key)
+    return [capmod.parse_cap(p) for p in sorted(glob.glob(os.path.join(out, '*.cap')))]
+
+
 def repo_corpus_files():
     files = []
     for sub in ('tests', 'examples', 'logos-codegen/tests', 'logos-cli/tests', 'src'):
